@@ -389,3 +389,7 @@ add("so_flush_dfcc", ["C06", "C18"], ["tu/sorter_flush_dfcc.c"], "h_sorter_flush
     replace=["calloc/calloc__cap", "entry_vec_init/entry_vec_init__cap", "_mtbl_sorter_write_chunk/_mtbl_sorter_write_chunk__cap", "reader_vec_add/reader_vec_add__cap", "threadpool_dispatch/threadpool_dispatch__cap"],
     unwind=16, timeout=600, slice=1, strength="U", functions=["_mtbl_sorter_flush", "_mtbl_sorter_get_entry_batch"],
     assumptions=["allocation, the vector operations, _mtbl_sorter_write_chunk and threadpool_dispatch replaced by capture contracts (chunk writing: so_chunk_*; delivery by the pool: assumed contract of mtbl/threadpool.c)"])
+add("so_destroy_dfcc", ["C18"], ["tu/sorter_destroy_dfcc.c"], "h_sorter_destroy_dfcc", mode="dfcc", enforce="mtbl_sorter_destroy/mtbl_sorter_destroy__spec",
+    replace=["result_handler_destroy/result_handler_destroy__cap", "free/free__cap", "mtbl_reader_destroy/mtbl_reader_destroy__cap", "entry_vec_destroy/entry_vec_destroy__cap", "reader_vec_destroy/reader_vec_destroy__cap"],
+    loops="loops/so_destroy.json", unwind=16, timeout=600, slice=1, strength="U", functions=["mtbl_sorter_destroy"],
+    assumptions=["result_handler_destroy's contract: returns after the jobs in flight have been delivered, i.e. it may append any number of readers to the chunk list (assumed contract of mtbl/threadpool.c); destructors and free are capture contracts; up to 2^28 entries / readers (loop counters are 32-bit)"])
